@@ -891,6 +891,9 @@ func init() {
 		if err := c04Decl(c); err != nil {
 			return err
 		}
+		if err := c04BgPos(c); err != nil {
+			return err
+		}
 		if err := c04Sheets(c); err != nil {
 			return err
 		}
